@@ -31,6 +31,10 @@ MODES = {
     "hard": {"up": cfgs.RESTART_MODES["hard_old"]},
     "hard_scale": {"up": dict(cfgs.RESTART_MODES["hard_new"], **{"restarts.rhoend_scale": 0.5})},
     "soft_inc": {"up": cfgs.RESTART_MODES["soft_inc"]},
+    "soft_inc2": {"up": dict(cfgs.RESTART_MODES["soft"], **{"restarts.increase_npt": True, "restarts.increase_npt_amt": 2,
+                                                           "restarts.max_npt_plus": 3})},
+    "hard_inc2": {"up": dict(cfgs.RESTART_MODES["hard_old"], **{"restarts.increase_npt": True, "restarts.increase_npt_amt": 2,
+                                                               "restarts.max_npt_plus": 3})},
     "regression": {"npt": 5, "up": {"regression.num_extra_steps": 1}},
     "inv": {"prob": "inv"},
 }
